@@ -302,6 +302,43 @@ pub fn run(args: &Args, report: &mut Report) {
         }
     }
 
+    // ---- inheritance DAGs: every (class, ancestor) pair, directly and inside containers
+    for decls in dag_worlds(args.thorough()) {
+        let names: Vec<String> = decls
+            .lines()
+            .filter_map(|l| l.strip_prefix("---@class ").map(|r| r.split(':').next().unwrap_or("").trim().to_string()))
+            .collect();
+        let mut w = World::from_text(&decls, names.clone(), vec![]);
+        let Some(env) = w.env.clone() else { continue };
+        let envh = hex(&env);
+        report.count("dag_worlds");
+        for (sub, sup) in ancestors(&decls) {
+            let forms: [(String, String, &str); 5] = [
+                (sup.clone(), sub.clone(), "ancestor"),
+                (format!("{sup}[]"), format!("{sub}[]"), "ancestor-in-array"),
+                (format!("{sup}|string"), sub.clone(), "ancestor-in-union"),
+                (format!("{sup}?"), sub.clone(), "ancestor-in-optional"),
+                (format!("table<string, {sup}>"), format!("table<string, {sub}>"), "ancestor-in-table"),
+            ];
+            for (st, ct, law) in forms {
+                let (Some(s), Some(c)) = (w.ty(&st), w.ty(&ct)) else { continue };
+                report.evaluations += 1;
+                let real = real_check(&w, &s, &c);
+                report.count(&format!("check_{law}_{}", if real.starts_with("panic") { "panic" } else { real.as_str() }));
+                let input = json!({"decls": decls, "law": law, "case": format!("{st} <- {ct}"), "source": ser_any(&s), "compact": ser_any(&c), "op": "check"});
+                if real != "ok" {
+                    push_failure(report, json!({"input": input, "what": format!("law `{law}` fails on the real checker: check_type_compact = {real} for {st} <- {ct} (a class must be accepted where any of its ancestors is expected)"), "class": null}));
+                }
+                let (Ok(ss), Ok(cs)) = (ser(&s, true), ser(&c, true)) else { continue };
+                if seen.insert(format!("C{env}{ss}{cs}")) {
+                    report.distinct_nontrivial += 1;
+                }
+                requests.push(format!("ty.check {envh} {} {}", hex(&ss), hex(&cs)));
+                pending.push(Pending { kind: "check", input, real: vec![real] });
+            }
+        }
+    }
+
     let answers = run_driver(&requests);
     for ((req, p), a) in requests.iter().zip(pending.iter()).zip(answers.iter()) {
         match p.kind {
@@ -327,6 +364,68 @@ pub fn run(args: &Args, report: &mut Report) {
             }
         }
     }
+}
+
+/// Inheritance DAGs with multiple inheritance in every listing order: a fixed set (root classes as the
+/// last / first listed parent, diamonds, depth up to 4) and the exhaustive enumeration of all DAGs over
+/// 4 (quick) / 5 (thorough) classes where each class lists 0-3 distinct earlier classes in any order.
+pub fn dag_worlds(thorough: bool) -> Vec<String> {
+    let mut out: Vec<String> = vec![
+        "---@class Base\n---@class Mixin\n---@class Mid: Base\n---@class Leaf: Mid, Mixin\n".into(),
+        "---@class Base\n---@class Mixin\n---@class Mid: Base\n---@class Leaf: Mixin, Mid\n".into(),
+        "---@class A\n---@class B: A\n---@class C: A\n---@class D: B, C\n".into(),
+        "---@class A\n---@class R1\n---@class R2\n---@class N: A\n---@class M: N\n---@class L: R1, M, R2\n".into(),
+        "---@class A\n---@class R1\n---@class R2\n---@class N: A, R1\n---@class M: N, R2\n---@class L: M, R1\n---@class K: L, R2\n".into(),
+        "---@class A\n---@class R\n---@class B: A, R\n---@class C: B, R\n---@class D: C, R\n---@class E: D, R\n".into(),
+        "---@class A\n---@class R\n---@class B: R, A\n---@class C: R, B\n---@class D: R, C\n---@class E: R, D\n".into(),
+    ];
+    let n = if thorough { 5 } else { 4 };
+    // ordered selections of 0..=3 distinct earlier classes
+    fn selections(avail: usize) -> Vec<Vec<usize>> {
+        let mut res: Vec<Vec<usize>> = vec![vec![]];
+        let mut frontier: Vec<Vec<usize>> = vec![vec![]];
+        for _ in 0..3 {
+            let mut next = Vec::new();
+            for f in &frontier {
+                for j in 0..avail {
+                    if !f.contains(&j) {
+                        let mut g = f.clone();
+                        g.push(j);
+                        next.push(g);
+                    }
+                }
+            }
+            res.extend(next.iter().cloned());
+            frontier = next;
+        }
+        res
+    }
+    let mut worlds: Vec<Vec<Vec<usize>>> = vec![vec![vec![]]]; // class 0 has no supers
+    for i in 1..n {
+        let sels = selections(i);
+        let mut next = Vec::new();
+        for w in &worlds {
+            for sel in &sels {
+                let mut w2 = w.clone();
+                w2.push(sel.clone());
+                next.push(w2);
+            }
+        }
+        worlds = next;
+    }
+    for w in worlds {
+        // only graphs with some multiple inheritance or depth >= 2 are interesting; keep all, they are cheap
+        let mut text = String::new();
+        for (i, sup) in w.iter().enumerate() {
+            if sup.is_empty() {
+                text.push_str(&format!("---@class Q{i}\n"));
+            } else {
+                text.push_str(&format!("---@class Q{i}: {}\n", sup.iter().map(|j| format!("Q{j}")).collect::<Vec<_>>().join(", ")));
+            }
+        }
+        out.push(text);
+    }
+    out
 }
 
 fn ser_any(t: &LuaType) -> Option<String> {
